@@ -51,13 +51,14 @@ func bulkKey(id, i int) string { return fmt.Sprintf("b%d_%d", id, i) }
 type caseSpec struct {
 	Name     string   `json:"name"`
 	Scen     string   `json:"scen"`   // idle | autodestroy | destroy | stop | marker
-	Forced   string   `json:"forced"` // "" | afterRead | beforeClose | parked | beforeDestroy | afterDrain
+	Forced   string   `json:"forced"` // "" | afterRead | beforeClose | parked | beforeDestroy | afterDrain | inflight
 	IdleSec  int64    `json:"idleSec"`
-	WriteSec int64    `json:"writeSec"`        // 0 = immediate
-	Pre      []opSpec `json:"pre"`             // sequential, at T0 (the instant the swamp is created)
-	GapMs    int      `json:"gapMs"`           // virtual pause after Pre
-	Touch    []opSpec `json:"touch,omitempty"` // sequential, at T0+GapMs (sets the last-interaction time)
-	TickK    int      `json:"tickK,omitempty"` // idle: race instant = closing tick + TickK seconds
+	WriteSec int64    `json:"writeSec"`         // 0 = immediate
+	Pre      []opSpec `json:"pre"`              // sequential, at T0 (the instant the swamp is created)
+	GapMs    int      `json:"gapMs"`            // virtual pause after Pre
+	Prefix   []string `json:"prefix,omitempty"` // at T0+GapMs, before Touch: vigil-taking requests that store nothing (prefix_test.go)
+	Touch    []opSpec `json:"touch,omitempty"`  // sequential, at T0+GapMs (sets the last-interaction time)
+	TickK    int      `json:"tickK,omitempty"`  // idle: race instant = closing tick + TickK seconds
 	Trigger  *opSpec  `json:"trigger,omitempty"`
 	Writers  []opSpec `json:"writers,omitempty"` // concurrent with the trigger / the tick, same virtual instant
 	Post     []opSpec `json:"post,omitempty"`    // sequential, after everything above has returned
@@ -82,23 +83,26 @@ type histEntry struct {
 }
 
 type caseResult struct {
-	Hist           []histEntry
-	Obs            map[string]string // key -> rendered observation
-	Verdicts       []finding
-	Inconclusive   string
-	Nontrivial     bool
-	HookHits       map[string]int64
-	Notes          []string
-	AckedRacers    int
-	FailedRacers   int
-	Overlap        bool // at least one racer really overlapped the trigger on the logical clock
-	Sentinel       []string
-	StopInFlush    bool
-	ActiveAtReturn int
-	BubbleDone     bool
-	RaceAbort      bool     // the race detector fired inside the bubble (reported, not judged here)
-	CloseTicks     []string // idle: offsets from T0 at which the close listener decided to close
-	PredictedClose string
+	Hist            []histEntry
+	Obs             map[string]string // key -> rendered observation
+	Verdicts        []finding
+	Inconclusive    string
+	Nontrivial      bool
+	HookHits        map[string]int64
+	Notes           []string
+	AckedRacers     int
+	FailedRacers    int
+	Overlap         bool // at least one racer really overlapped the trigger on the logical clock
+	Sentinel        []string
+	BalanceChecks   int
+	BalanceNoAccess int
+	PrefixLog       []string
+	StopInFlush     bool
+	ActiveAtReturn  int
+	BubbleDone      bool
+	RaceAbort       bool     // the race detector fired inside the bubble (reported, not judged here)
+	CloseTicks      []string // idle: offsets from T0 at which the close listener decided to close
+	PredictedClose  string
 }
 
 type finding struct {
@@ -184,6 +188,36 @@ type runner struct {
 	createdAtReturn int64
 	closedAtReturn  int64
 	snapErr         string
+
+	// vigil balance at quiescent points
+	lastBalance     int64
+	balanceChecks   int
+	balanceNoAccess int
+	balanceFindings []finding
+	prefixLog       []string
+}
+
+// balance reads the vigil counter of the live instance while no request is in flight: it must be 0.
+// A deviation is attributed to the step after which the counter moved.
+func (x *runner) balance(after string) {
+	n, ok, why := x.vigilCount()
+	if !ok {
+		if why == "accessor-absent" {
+			x.balanceNoAccess++
+		}
+		return
+	}
+	x.balanceChecks++
+	if n != 0 && n != x.lastBalance {
+		sign := "negative"
+		if n > 0 {
+			sign = "positive"
+		}
+		x.balanceFindings = append(x.balanceFindings, finding{Sig: "vigil-balance:" + sign + ":after=" + after,
+			What: fmt.Sprintf("no request is in flight, yet the vigil counter of the live swamp instance is %d after %s (was %d before): %s", n, after, x.lastBalance,
+				map[bool]string{true: "the next request in flight is invisible to the drain of auto-destroy / idle close / shutdown", false: "the swamp can never be closed or destroyed again"}[n < 0])})
+	}
+	x.lastBalance = n
 }
 
 // copyTree copies a data root (regular files and directories) as it is on disk right now.
@@ -689,7 +723,7 @@ func runBubble(t *testing.T, cs caseSpec, x *runner, cr *caseResult) {
 				}
 			}
 		}
-		for _, n := range []string{"swamp.closeListener.afterRead", "swamp.closeListener.beforeClose", "swamp.autodestroy.beforeDestroy", "swamp.destroy.afterDrain", "hydra.summon.beforeRelease"} {
+		for _, n := range []string{"swamp.closeListener.afterRead", "swamp.closeListener.beforeClose", "swamp.autodestroy.beforeDestroy", "swamp.destroy.afterDrain", "hydra.summon.beforeRelease", "swamp.save.underGuard"} {
 			cr.HookHits[n] = verifhook.Hits(n)
 		}
 		verifhook.Reset()
@@ -717,8 +751,16 @@ func runBubble(t *testing.T, cs caseSpec, x *runner, cr *caseResult) {
 			time.Sleep(time.Duration(cs.GapMs) * time.Millisecond)
 		}
 		last := t0
-		if len(cs.Touch) > 0 {
+		if len(cs.Touch) > 0 || len(cs.Prefix) > 0 {
 			last = time.Now()
+		}
+		for _, v := range cs.Prefix {
+			out := x.prefixRequest(v)
+			if out == "" {
+				continue
+			}
+			x.prefixLog = append(x.prefixLog, v+" -> "+out)
+			x.balance(v)
 		}
 		role := "pre"
 		if cs.Scen == "marker" {
@@ -767,7 +809,9 @@ func runBubble(t *testing.T, cs caseSpec, x *runner, cr *caseResult) {
 					}
 				}
 			})
-			cr.PredictedClose = tick.Sub(t0).String()
+			if cs.Forced != "inflight" { // (no race instant there; later, legitimate closes are recorded too)
+				cr.PredictedClose = tick.Sub(t0).String()
+			}
 			switch cs.Forced {
 			case "":
 				sleepTo(raceAt)
@@ -795,8 +839,21 @@ func runBubble(t *testing.T, cs caseSpec, x *runner, cr *caseResult) {
 						time.Sleep(2 * time.Millisecond)
 					}
 				})
+			case "inflight":
+				// exactly one request in flight, and for long: the racer is held inside SaveFunction (after
+				// its BeginVigil, before its insert) for longer than the idle time; only its vigil keeps the
+				// close listener from evicting the swamp under it
+				var armed atomic.Bool
+				armed.Store(true)
+				verifhook.Set("swamp.save.underGuard", func(...any) {
+					if armed.Swap(false) {
+						fired.Store(true)
+						time.Sleep(time.Duration(cs.IdleSec+3) * time.Second)
+					}
+				})
+				x.launch(fl, cs.Writers[:1], "racer")
 			}
-			if cs.Forced != "" {
+			if cs.Forced != "" && cs.Forced != "inflight" {
 				sleepTo(raceAt.Add(10 * time.Millisecond))
 			}
 		case "autodestroy", "destroy":
@@ -815,6 +872,20 @@ func runBubble(t *testing.T, cs caseSpec, x *runner, cr *caseResult) {
 					}
 				})
 				x.launch(fl, []opSpec{*cs.Trigger}, "trigger")
+			case "inflight":
+				// exactly one request in flight: the racer is held inside SaveFunction (after its BeginVigil,
+				// before its insert) while the remover deletes the last record and runs the whole auto-destroy;
+				// only the racer's vigil makes the destroy wait for the insert
+				var armed atomic.Bool
+				armed.Store(true)
+				verifhook.Set("swamp.save.underGuard", func(...any) {
+					if armed.Swap(false) {
+						fired.Store(true)
+						x.launch(fl, []opSpec{*cs.Trigger}, "trigger")
+						time.Sleep(5 * time.Millisecond)
+					}
+				})
+				x.launch(fl, cs.Writers[:1], "racer")
 			case "parked":
 				// the remover has seen the swamp empty and is held for 1 ms; the racers start; the first of
 				// them is held for 2 ms between obtaining the swamp from hydra and its BeginVigil (it owns
@@ -899,6 +970,7 @@ func runBubble(t *testing.T, cs caseSpec, x *runner, cr *caseResult) {
 		verifhook.Set("swamp.autodestroy.beforeDestroy", nil)
 		verifhook.Set("swamp.destroy.afterDrain", nil)
 		verifhook.Set("hydra.summon.beforeRelease", nil)
+		verifhook.Set("swamp.save.underGuard", nil)
 		hung := fl.pending()
 		if cs.Forced != "" && !fired.Load() {
 			cr.Inconclusive = "forced case: hook for " + cs.Forced + " was never reached at the planned point"
@@ -930,6 +1002,13 @@ func runBubble(t *testing.T, cs caseSpec, x *runner, cr *caseResult) {
 				x.do(o, "post")
 			}
 			synctest.Wait()
+		}
+		if hung == 0 && !stopped {
+			f := cs.Forced
+			if f == "" {
+				f = "natural"
+			}
+			x.balance("scenario:" + cs.Scen + "/" + f)
 		}
 
 		// ---- close and re-open
@@ -969,7 +1048,7 @@ func runBubble(t *testing.T, cs caseSpec, x *runner, cr *caseResult) {
 					cr.Obs[k] = o.Raw
 				}
 				if cr.Inconclusive == "" {
-					cr.Verdicts = x.judge(obs)
+					cr.Verdicts = append(x.judge(obs), x.balanceFindings...)
 					if cs.Scen == "stopflush" && (x.activeAtReturn != 0 || x.closedAtReturn < x.createdAtReturn) {
 						// no request is in flight in this scenario: when the shutdown step returns, every swamp
 						// must be closed (StopHydra: "blocker function until all … are stopped gracefully")
@@ -986,6 +1065,7 @@ func runBubble(t *testing.T, cs caseSpec, x *runner, cr *caseResult) {
 
 // finish derives the per-case statistics from the recorded history.
 func (x *runner) finish(cr *caseResult) {
+	cr.BalanceChecks, cr.BalanceNoAccess, cr.PrefixLog = x.balanceChecks, x.balanceNoAccess, x.prefixLog
 	x.mu.Lock()
 	cr.Hist = append([]histEntry(nil), x.hist...)
 	x.mu.Unlock()
